@@ -88,6 +88,7 @@ def layer_case(rng):
 
 def cases(rng, tier):
     out = []
+    gen_ops.WIDE_LEVELS = True
     per = 10 if tier == 'quick' else 300
     for op in gen_ops.OPS_NN:
         for _ in range(per * (4 if op in ('fold', 'unfold', 'conv2d', 'max_pool2d', 'avg_pool2d') else 1)):     # the 2-d geometry space is the largest
